@@ -7,7 +7,7 @@ that was moved runs until it is parked inside a backend again or has returned, a
 that is due has run before the snapshot is taken (`settle`).  `Props.sched_reachable` shows that every
 state produced here is `Reachable`, so the invariants apply to exactly what the harness compares.
 -/
-import CaddyModel.C09.Model
+import CaddyModel.C09.ActiveVerdict
 
 namespace CaddyModel.C09
 
@@ -22,6 +22,8 @@ structure DState where
   fbs : List (CfgId × List Key) -- handlers with dynamic upstreams: their static (fallback) upstream keys
   srcFails : Bool            -- the dynamic source currently answers with an error
   hbad : List Key            -- backends whose health endpoint answers 503
+  hprobe : List (Key × Probe) := [] -- backends whose health endpoint was scripted in full (status, body, header
+                             -- it insists on); wins over `hbad`
   badDial : List (Nat × Key) -- request → the upstream key whose dial placeholder expands, for this request, to
                              -- something that is not one dialable socket
   streaming : List Nat       -- requests whose response body is being copied (headers arrived, body not finished)
@@ -146,6 +148,7 @@ inductive SStep
   | load (ks : List Key) (p : Params) (fb : List Key)   -- fb: static upstreams of a handler with a dynamic source
   | srcFail (b : Bool)
   | health (k : Key) (ok : Bool)   -- the health endpoint of backend k starts passing / failing
+  | probe (k : Key) (pr : Probe)   -- the health endpoint of backend k is scripted in full (status, body, header)
   | round                          -- one round of active health checks of the loaded configuration
   | newReqBad (get : Bool) (k : Key)   -- a request for which the dial placeholder of upstream k is undialable
   | newReqWs                -- a GET that asks for a protocol upgrade (websocket)
@@ -325,22 +328,29 @@ def continueOrRet (d : DState) (s1 : State) (r : Nat) (res : String) : Option (D
   if isDone s1 r then some ({ d with s := s1 }, res)
   else (advance fuel0 { d with s := s1 } r).map fun x => ({ d with s := x.1 }, x.2)
 
-/-- would an active health check of backend `k` pass now?  (it must be reachable and its health
-    endpoint must answer 2xx) -/
-def effUp (d : DState) (k : Key) : Bool := !keyDown d k && !d.hbad.contains k
+/-- what the health endpoint of backend `k` answers now: as scripted in full, else 503 "DOWN" /
+    200 "UP" -/
+def probeOf (d : DState) (k : Key) : Probe :=
+  match d.hprobe.find? (·.1 == k) with
+  | some x => x.2
+  | none => if d.hbad.contains k then probeDown else probeUp
+
+/-- would an active health check of handler parameters `p` against backend `k` pass now?  (it must
+    be reachable and its answer must satisfy the handler's expectations: `ActiveVerdict.verdict`) -/
+def effUp (d : DState) (p : Params) (k : Key) : Bool := verdict p (!keyDown d k) (probeOf d k)
 
 /-- healthchecks.go doActiveHealthCheckForAllHosts: one check per upstream of handler `c`
-    (`i` = position of the head of `ups`) -/
-def roundFrom (d : DState) (c : CfgId) : State → Nat → List (Key × HostId) → Option State
+    (`i` = position of the head of `ups`), judged by the expectations `p` of that handler -/
+def roundFrom (d : DState) (c : CfgId) (p : Params) : State → Nat → List (Key × HostId) → Option State
   | s, _, [] => some s
   | s, i, u :: rest =>
-    match step s (.activeCheck c i (effUp d u.1)) with
-    | some s' => roundFrom d c s' (i + 1) rest
+    match step s (.activeCheck c i (effUp d p u.1)) with
+    | some s' => roundFrom d c p s' (i + 1) rest
     | none => none
 
 def activeRound (d : DState) (s : State) (c : CfgId) : Option State :=
   match s.cfgs[c]? with
-  | some cs => if cs.par.aOn then roundFrom d c s 0 cs.ups else some s
+  | some cs => if cs.par.aOn then roundFrom d c cs.par s 0 cs.ups else some s
   | none => none
 
 /-- does unloading handler `c` close the upgraded connection of request `r`?  (streaming.go
@@ -405,7 +415,9 @@ def sstep (d : DState) : SStep → Option (DState × String)
       | some s' => some ({ (match replaced d with | some old => afterUnload x.1 old x.1.s | none => x.1) with s := s' }, x.2)
   | .health k ok =>
     if d.hbad.contains k == !ok then none
-    else some ({ d with hbad := if ok then d.hbad.filter (· != k) else k :: d.hbad }, "-")
+    else some ({ d with hbad := if ok then d.hbad.filter (· != k) else k :: d.hbad,
+                        hprobe := d.hprobe.filter (·.1 != k) }, "-")
+  | .probe k pr => some ({ d with hprobe := (k, pr) :: d.hprobe.filter (·.1 != k), hbad := d.hbad.filter (· != k) }, "-")
   | .round =>
     match curLive d with
     | none => none
